@@ -107,7 +107,12 @@ class Theory:
         self.thms.update(other.thms)
         self.trusted += other.trusted
 
+    # every fact about `mod` by a symbolic divisor that a proof needs is handed to it as an instance of the (proved) theorem
+    # mod_of_small_arguments, so the operator itself is abstracted in the obligations (sound for unsat, see pyvc.terms.abstract_int_mod)
+    default_meta = {"abstract_int_mod": True}
+
     def _add(self, name, hyps, goal, note, meta=None):
+        meta = {**self.default_meta, **(meta or {})}
         self.lemmas.append(Lemma(f"{self.prefix}.{name}", (lambda h=list(hyps), g=goal: (h, g)), note, meta=meta))
 
     def axiom(self, name, consts, funcs, statement, note=""):
@@ -174,7 +179,7 @@ def generic_sum_theory(prefix="sums"):
     modf = th.direct("mod_of_small_arguments", [a, N], [], [N >= 1],
                      z3.And(z3.Implies(z3.And(0 <= a, a < N), a % N == a), z3.Implies(z3.And(N <= a, a < 2 * N), a % N == a - N),
                             z3.Implies(z3.And(-N <= a, a < 0), a % N == a + N)),
-                     note="x mod N = x on [0,N), x-N on [N,2N), x+N on [-N,0)")
+                     note="x mod N = x on [0,N), x-N on [N,2N), x+N on [-N,0)", meta={"abstract_int_mod": False})
     jj = z3.Int("jj_sl")
     mod_hyp = z3.ForAll([jj], modf.inst({a: jj}))
     Cy = CSum(lambda j: g((T.to_z3(j) + k) % N))
